@@ -196,7 +196,7 @@ def check_theorems(pid):
 
 
 # ---------------------------------------------------------------- case runs
-def run_kind(pid, kind, seed, count, args=""):
+def run_kind(pid, kind, seed, count, args="", binary="sfharness"):
     """Run `count` cases of `kind` through the Go implementation and the model.
     Returns dict(cases, failures=[(verdict_line, case_line)], distinct, samples, dist)."""
     d = os.path.join(BUILD, "run", pid, kind)
@@ -210,7 +210,7 @@ def run_kind(pid, kind, seed, count, args=""):
         vf = os.path.join(d, "s%d.verdicts" % i)
         cmd = "set -o pipefail; ulimit -v 8000000; export VERIF_CUTSMAX=%d; timeout 3000 %s gen %s %d %d %s > %s && %s < %s > %s" % (
             CUTSMAX[0],
-            os.path.join(BUILD, "sfharness"), kind, seed * 64 + i, per, args, cf,
+            os.path.join(BUILD, binary), kind, seed * 64 + i, per, args, cf,
             os.path.join(BUILD, "sfmodel"), cf, vf)
         procs.append((subprocess.Popen(["bash", "-c", cmd], stderr=subprocess.PIPE, text=True), cf, vf))
     res = dict(kind=kind, cases=0, failures=[], distinct=0, samples=[], errors=[], ok=0)
@@ -218,7 +218,7 @@ def run_kind(pid, kind, seed, count, args=""):
     for p, cf, vf in procs:
         _, err = p.communicate()
         if p.returncode != 0:
-            res["errors"].append("shard failed rc=%d: %s" % (p.returncode, err[-500:]))
+            res["errors"].append("shard failed rc=%d (seed %d, kind %s): %s" % (p.returncode, seed, kind, err[-700:].replace("\n", " | ")))
             continue
         cases = open(cf).read().split("\n")
         if cases and cases[-1] == "":
@@ -299,12 +299,21 @@ def run_check(pid, tier, seed):
         hook(pid, tier, notes)
 
     runs = []
+    race_built = [False]
     corr_fail, oracle_fail = [], []
     for spec in P["kinds"]:
         kind, nq, nt = spec[0], spec[1], spec[2]
-        args = spec[3] if len(spec) > 3 else ""
+        binary = spec[3] if len(spec) > 3 else "sfharness"
         count = nq if tier == "quick" else nt
-        r = run_kind(pid, kind, seed, count, args)
+        if binary == "sfharness-race" and not race_built[0]:
+            ok_r, rlog = build_harness_race()
+            race_built[0] = True
+            if not ok_r:
+                corr_fail.append(("HARNESS race/checkptr build failed: " + rlog[-400:], kind + "\t-"))
+                continue
+        r = run_kind(pid, kind, seed, count, "", binary)
+        if binary != "sfharness":
+            r["kind"] = kind + "@" + binary
         runs.append(r)
         for e in r["errors"]:
             corr_fail.append(("HARNESS " + e, kind + "\t-"))
